@@ -26,8 +26,8 @@ RANGES = {"fs": (0, N_FS), "jrnl": (N_FS, N_FS + N_JI), "xjrnl": (N_FS + N_JI, N
 UNIVERSE = N_FS + N_JI + N_XJ + N_UN + N_QC
 SHARE = {"fs": 0.70, "jrnl": 0.10, "xjrnl": 0.06, "undo": 0.08, "qcow": 0.06}
 BUDGET = {"quick": 1500, "thorough": 40000}
-WATCHDOG = 120
-WATCHDOG_RERUN = 300
+WATCHDOG = int(os.environ.get("VERIF_C06_WATCHDOG", "120"))      # soaks use a shorter one
+WATCHDOG_RERUN = WATCHDOG * 5 // 2
 PIPE_CAP = 8 << 20
 RDUMP_FSIZE = 8 << 20
 QCOW_RAW_FSIZE = 512 << 20
